@@ -1301,8 +1301,38 @@ fn gen_tablet_ops(r: &mut Rng, c: &ClusterC, aim: &[i64]) -> Vec<TabOp> {
 enum Forced {
     ReqDrop,
     Trim,
+    /// NtsGap (seeded change C12-3): 3-4 datacenters in ring order dc1, dc2, (dc4,) dc3; the only keyspace is
+    /// NetworkTopologyStrategy {dc1: 1, dc3: 1} — dc2 (and dc4) exist but are NOT listed; the dc1 node is down, no
+    /// datacenter is preferred, no statement is LWT.  Every token has the replicas [dc1 node (down), dc3 node]:
+    /// half of the requests draw the unreachable replica first and take the slow path of choose_filtered, which
+    /// must walk past the unlisted datacenters to find the reachable replica.
+    NtsGap,
 }
-fn force_shape(c: &mut ClusterC, f: Forced) {
+fn force_shape(c: &mut ClusterC, f: Forced, r: &mut Rng) {
+    if f == Forced::NtsGap {
+        let four = r.bool();
+        let mk = |dc: u32, up: char, base: i64, r: &mut Rng| NodeC {
+            dc,
+            rack: 1,
+            nr: *r.pick(&[0u16, 1, 2, 4]),
+            msb: 12,
+            up,
+            flt: false,
+            tokens: vec![base, base + 6_000_000_000_000_000_000, base + 6_000_000_000_000_000_000 + 5_000_000_000_000_000_000],
+        };
+        // the smallest tokens fix the order in which the datacenters first appear on the ring
+        let mut nodes = vec![mk(1, if r.bool() { 'b' } else { 'a' }, -9_000_000_000_000_000_000, r), mk(2, 'u', -8_900_000_000_000_000_000, r)];
+        if four {
+            nodes.push(mk(4, 'u', -8_800_000_000_000_000_000, r));
+        }
+        nodes.push(mk(3, 'u', -8_700_000_000_000_000_000, r));
+        c.nodes = nodes;
+        c.kss = vec![KsC { strat: Strat::Nts(vec![(1, 1), (3, 1)]), tablets: false }];
+        c.cfg.pol_pref = if r.bool() { Pref::Any } else { Pref::Inherit };
+        c.cfg.sess_pref = Pref::Any;
+        c.cfg.ta = true;
+        return;
+    }
     let n0 = &mut c.nodes[0];
     n0.up = 'u';
     n0.flt = false;
@@ -1317,7 +1347,14 @@ fn force_shape(c: &mut ClusterC, f: Forced) {
 
 async fn run_cluster(r: &mut Rng, c: &ClusterC, nkeys: usize, out: &mut Out, forced: Option<Forced>) {
     let nst = r.range(1, 3) as usize;
-    let stmts: Vec<StmtC> = (0..nst).map(|i| gen_stmt(r, c, i as u32)).collect();
+    let mut stmts: Vec<StmtC> = (0..nst).map(|i| gen_stmt(r, c, i as u32)).collect();
+    if forced == Some(Forced::NtsGap) {
+        for st in stmts.iter_mut() {
+            st.ks = 0;
+            st.lwt = false;
+            st.serial = false;
+        }
+    }
     let mut cf = c.fields();
     // a scenario that cannot be set up is retried once (environment); then it is a counted not-run
     let mut run = match Running::start(c, &stmts).await {
@@ -1333,11 +1370,11 @@ async fn run_cluster(r: &mut Rng, c: &ClusterC, nkeys: usize, out: &mut Out, for
     for (case, o) in &run.ptie {
         out.case(case, o);
     }
-    if let Some(f) = forced {
+    if let Some(f) = forced.filter(|f| *f != Forced::NtsGap) {
         let have = run.judged.values().filter(|(nd, _)| *nd == 0).count();
         let ok = match f {
             Forced::ReqDrop => run.kill_round(0, have - 1, 0, Some(2)).await,
-            Forced::Trim => run.kill_round(0, 1, 1, None).await,
+            _ => run.kill_round(0, 1, 1, None).await,
         };
         if !ok {
             out.case(&format!("K {} {} - {}", cf, stmts[0].field(), "n"), "skip:refill-not-established -");
@@ -1606,9 +1643,9 @@ fn main() {
         for idx in 0..a.n {
             let mut c = gen_cluster(&mut r);
             // one cluster in twenty of each forced shape
-            let forced = match idx % 20 { 3 => Some(Forced::ReqDrop), 13 => Some(Forced::Trim), _ => None };
+            let forced = match idx % 20 { 3 => Some(Forced::ReqDrop), 13 => Some(Forced::Trim), 7 => Some(Forced::NtsGap), _ => None };
             if let Some(f) = forced {
-                force_shape(&mut c, f);
+                force_shape(&mut c, f, &mut r);
             }
             run_cluster(&mut r, &c, nkeys, &mut out, forced).await;
         }
